@@ -34,5 +34,5 @@ Deliverables, written into {wt}/MUTANTS/ (create it):
   A.diff, B.diff    - `git diff` of each change alone against the worktree's HEAD (source change only, not the demo)
   A_demo_test.go, B_demo_test.go (or demo programs) - plus a line at the top of each saying in which package directory it must be placed and the command to run it
   README.md         - for each change: what it breaks, what exactly is needed for it to manifest (interleaving / fault / sequence / input), which existing tests you ran and that they pass, and that the demo fails with / passes without the change.
-Leave the worktree's tracked files UNMODIFIED at the end (git checkout -- . after saving the diffs), with only MUTANTS/ as untracked content.
+Never use `git stash` (the stash is shared between worktrees of other people working in parallel); use `git diff > file` and `git checkout -- .` instead. Leave the worktree's tracked files UNMODIFIED at the end (git checkout -- . after saving the diffs), with only MUTANTS/ as untracked content.
 Reply with a 10-line summary of the two changes.""")
